@@ -575,7 +575,7 @@ impl Prop for C15P {
     }
     fn cases(&self, tier: Tier) -> u32 {
         match tier {
-            Tier::Quick => 60_000,
+            Tier::Quick => 400_000,
             Tier::Thorough => 3_000_000,
         }
     }
